@@ -146,6 +146,9 @@ pub(crate) enum Message {
     #[cfg(feature = "internal")]
     PackageTxs(Request<Option<u64>, Vec<TxEntry>>),
     SubmitLocalTestTx(Request<TransactionView, SubmitTxResult>),
+    // verification-harness hook: read-only dump of the pool
+    #[cfg(feature = "verif-hooks")]
+    VerifDump(Request<(), crate::verif::VerifDump>),
 }
 
 #[derive(Debug, Hash, Eq, PartialEq)]
@@ -472,6 +475,13 @@ impl TxPoolController {
     /// get total recent reject num
     pub fn get_total_recent_reject_num(&self) -> Result<Option<u64>, AnyError> {
         send_message!(self, GetTotalRecentRejectNum, ())
+    }
+
+    /// verification-harness hook: a read-only plain-data copy of the pool (entries, links, edges,
+    /// counters, pool snapshot tip)
+    #[cfg(feature = "verif-hooks")]
+    pub fn verif_dump(&self) -> Result<crate::verif::VerifDump, AnyError> {
+        send_message!(self, VerifDump, ())
     }
 }
 
@@ -1067,6 +1077,15 @@ async fn process(mut service: TxPoolService, message: Message) {
             let total_recent_reject_num = service.get_total_recent_reject_num().await;
             if let Err(e) = responder.send(total_recent_reject_num) {
                 error!("Responder sending total_recent_reject_num failed {:?}", e)
+            };
+        }
+        #[cfg(feature = "verif-hooks")]
+        Message::VerifDump(Request { responder, .. }) => {
+            let mut dump = service.tx_pool.read().await.verif_dump();
+            dump.verify_queue_len = service.verify_queue.read().await.len() as u64;
+            dump.orphan_len = service.orphan.read().await.len() as u64;
+            if let Err(e) = responder.send(dump) {
+                error!("Responder sending verif_dump failed {:?}", e)
             };
         }
     }
